@@ -45,9 +45,26 @@ def cases(tier, rng):
                  AND(C("n", X), *([zero] * 30), NOT(C("e", X)), U(Y, X)), AND(C("num", X), NOT(NOT(C("many", X))), U(Y, X))):
         rules = big + [rule(cplx("a", X, Y), body), fact("a", i(99), i(99))]
         out.append((single_query_case(rules, [atom("a"), var(0, "$Q"), var(0, "$R")], 45), "not-large"))
+    # recursion THROUGH not, 60-75 levels deep: even(z). even(s($N)) :- not(even($N)).  and over a list
+    N_ = var(0, "$N"); T_ = var(0, "$T")
+    par = [fact("even", atom("z")), rule(cplx("even", cplx("s", N_)), NOT(C("even", N_))),
+           fact("evenlen", EMPTY), rule(cplx("evenlen", lst([ANON], T_)), NOT(C("evenlen", T_)))]
+    def peano(k):
+        t = atom("z")
+        for _ in range(k): t = cplx("s", t)
+        return t
+    for k in ([3, 62, 63, 64, 65, 66, 67, 70] if tier == "quick" else list(range(55, 80))):
+        out.append((single_query_case(par, [atom("even"), peano(k)], 2), "not-deep"))
+        out.append((single_query_case(par, [atom("evenlen"), lst([i(1)] * k)], 2), "not-deep"))
+    # not over comparisons of integers that differ by one above 2^53
+    st = [fact("stamp", i(v)) for v in (2**53, 2**53 + 1, 2**53 + 2, 2**62, 2**62 + 1, 5)]
+    A_, B_ = var(0, "$A"), var(0, "$B")
+    for cmpn in ("equal", "less_than", "greater_than", "less_than_or_equal"):
+        rules = st + [rule(cplx("d", A_, B_), AND(C("stamp", A_), C("stamp", B_), NOT(bip(cmpn, A_, B_))))]
+        out.append((single_query_case(rules, [atom("d"), var(0, "$P"), var(0, "$Q")], 40), "not-large"))
     return out
 
-RULE = ("(0) large shapes: not over goals that search 40-clause predicates and 30-link chains, negations nested 6-9 deep, a not as the 31st goal of a body, 40 candidates filtered by a not; "
+RULE = ("(0) large shapes: not over goals that search 40-clause predicates and 30-link chains, negations nested 6-9 deep, a not as the 31st goal of a body, 40 candidates filtered by a not, recursion through not 60-75 levels deep, not over comparisons of integers above 2^53; "
         "(a) not(G) for 19 goals G (calls with 0/1/many answers, with and without bindings to query variables, "
         "conjunctions, disjunctions, unifications, comparisons, a recursive call, an unknown predicate) at 9 positions of "
         "a clause body (alone, after / before / between multi-answer goals, in a disjunction, twice, followed by a binding "
